@@ -211,6 +211,9 @@ func buildWorld(c *GCase) *simos.World {
 	w.StdoutKind = c.StdoutKind
 	for i := range c.Files {
 		f := &c.Files[i]
+		if len(path.Base(f.Name)) > simos.NameMax {
+			continue // no file system holds such a name: the file does not exist
+		}
 		switch f.Kind {
 		case "symlink":
 			w.Symlink(f.Name, f.Target)
@@ -224,7 +227,7 @@ func buildWorld(c *GCase) *simos.World {
 		}
 	}
 	for i := range c.Files {
-		if f := &c.Files[i]; f.Kind == "hardlink" {
+		if f := &c.Files[i]; f.Kind == "hardlink" && len(path.Base(f.Name)) <= simos.NameMax {
 			w.Link(f.Name, f.Target) // a second name of the regular file Target
 		}
 	}
